@@ -269,6 +269,80 @@ func (m *c09LendMon) moveToRatio(b lendtypes.BorrowAsset, permille int64) (uint6
 	return pr.AssetIn, pin
 }
 
+// exactThresholdProbe: "at or below the threshold ... is never seized" includes EXACTLY at the threshold. A fresh
+// same-pool borrow with round amounts is opened (no time passes, so no interest), the two prices are then set so that
+// debt value / collateral value equals the liquidation threshold as an exact rational, and somebody sends the liquidate
+// message of the given generation: nothing may be seized. One price unit further the borrow is unsafe.
+func (m *c09LendMon) exactThresholdProbe(gen int) {
+	e := m.e
+	c := e.c
+	before := c.App.LendKeeper.GetUserBorrowIDCounter(c.Ctx())
+	e.force = "same-pool-round"
+	e.txStep()
+	id := c.App.LendKeeper.GetUserBorrowIDCounter(c.Ctx())
+	if id <= before {
+		return
+	}
+	b, found := c.App.LendKeeper.GetBorrow(c.Ctx(), id)
+	pr, ok := e.pair(b.PairID)
+	if !found || !ok || pr.IsInterPool || pr.IsEModeEnabled || pr.AssetIn == pr.AssetOut || !b.InterestAccumulated.IsZero() {
+		return
+	}
+	in, out := e.u.Assets[pr.AssetIn], e.u.Assets[pr.AssetOut]
+	par, found := c.App.LendKeeper.GetAssetRatesParams(c.Ctx(), pr.AssetIn)
+	if in == nil || out == nil || !found {
+		return
+	}
+	thr := c08DecRat(par.LiquidationThreshold)
+	// Y/X = out*pout*decIn / (in*pin*decOut) == thr  <=>  pout/pin = thr*in*decOut / (out*decIn)
+	q := new(big.Rat).Mul(thr, new(big.Rat).SetFrac(new(big.Int).Mul(b.AmountIn.Amount.BigInt(), out.Decimals), new(big.Int).Mul(b.AmountOut.Amount.BigInt(), in.Decimals)))
+	num, den := new(big.Int).Set(q.Num()), new(big.Int).Set(q.Denom())
+	lim := big.NewInt(1 << 40)
+	if num.Sign() <= 0 || num.Cmp(lim) > 0 || den.Cmp(lim) > 0 {
+		m.rec.Count("exact_threshold_probe_not_representable", 1)
+		return
+	}
+	for num.Cmp(big.NewInt(100_000)) < 0 && den.Cmp(big.NewInt(100_000)) < 0 { // prices in a sane range
+		num.Mul(num, big.NewInt(10))
+		den.Mul(den, big.NewInt(10))
+	}
+	oldIn, _ := e.u.Price(in.ID)
+	oldOut, _ := e.u.Price(out.ID)
+	e.u.SetPrice(in.ID, den.Uint64(), true)
+	e.u.SetPrice(out.ID, num.Uint64(), true)
+	defer func() {
+		e.u.SetPrice(in.ID, oldIn, true)
+		e.u.SetPrice(out.ID, oldOut, true)
+	}()
+	X := exactValue(b.AmountIn.Amount.BigInt(), den.Uint64(), in.Decimals)
+	Y := exactValue(b.AmountOut.Amount.BigInt(), num.Uint64(), out.Decimals)
+	if new(big.Rat).Quo(Y, X).Cmp(thr) != 0 {
+		return
+	}
+	tag := fmt.Sprintf("gen%d", gen)
+	who := c.Accts[e.rnd.Intn(len(c.Accts))]
+	var msg sdk.Msg = &liqV2types.MsgLiquidateInternalKeeperRequest{From: who.Addr.String(), LiqType: 1, Id: id}
+	if gen == 1 {
+		msg = &liqtypes.MsgLiquidateBorrowRequest{From: who.Addr.String(), BorrowId: id}
+	}
+	res, _ := e.deliver(who, msg)
+	post := e.snap()
+	e.log(fmt.Sprintf("%s sends the %s liquidate message for borrow %d exactly at its threshold (in=%s at %d, out=%s at %d, threshold %s) -> ok=%v", who.Name, tag, id, b.AmountIn, den.Uint64(), b.AmountOut, num.Uint64(), par.LiquidationThreshold, res.OK()))
+	m.rec.Eval(1)
+	m.rec.Count("liquidate_msg_"+tag+"_exactly_at_threshold", 1)
+	if pb, still := post.borrows[id]; still && pb.IsLiquidated {
+		m.rec.Violate("C09/safety/seized-at-exactly-the-threshold/borrow/same-pool/message-"+tag, "a borrow whose debt-to-collateral ratio equals its liquidation threshold exactly was seized by a liquidate message",
+			map[string]interface{}{"generation": gen, "borrow": id, "collateral": b.AmountIn.String(), "debt": b.AmountOut.String(), "price_in": den.String(), "price_out": num.String(), "threshold": par.LiquidationThreshold.String(), "history_tail": e.tail(4)})
+		return
+	}
+	// positive control: one price unit above, the same message seizes it
+	e.u.SetPrice(out.ID, num.Uint64()+1+num.Uint64()/1000, true)
+	res2, _ := e.deliver(who, msg)
+	if pb, still := e.snap().borrows[id]; res2.OK() && still && pb.IsLiquidated {
+		m.rec.Count("liquidate_msg_"+tag+"_just_above_threshold_seized", 1)
+	}
+}
+
 // liquidateMsg: a random account sends a liquidate message for a borrow.
 //
 //	gen 2: liquidationsV2 MsgLiquidateInternalKeeperRequest{LiqType: 1}
